@@ -208,6 +208,10 @@ def c11_slow(script: str = "ok", seconds: float = 0.0) -> str:
     time.sleep(seconds)
     if script == "fail":
         raise ProgError("boom")
+    if script == "pause":
+        from pynenc.workflow import WorkflowPauseError
+
+        raise WorkflowPauseError("pause requested")   # the run handler logs it: the thread ends, the invocation stays RUNNING
     if script == "retry" and inv.num_retries == 0:
         raise RetryError("again")
     return script
